@@ -127,6 +127,8 @@ func (c *ExecuteCtx) AdjustChunkCache(chooseIdxes []int) {
 		}
 		c.FieldChunkCaches[k] = nv
 	}
+	// the per-chunk entries describe the unfiltered chunks, not the rows returned
+	clear(c.FieldChunkKeyCaches)
 }
 
 type FinalPlan interface {
